@@ -123,7 +123,17 @@ func astList(l node.List) []any {
 	return r
 }
 
-// astJSON dumps an unresolved syntax tree as returned by parser.Parse.
+// resolvedDump switches astJSON to the form of a tree after STRewrite: every name carries its storage class
+// (l local, c closure, g global) and slot index, every function its number of local slots.
+var resolvedDump bool
+
+func rastJSON(n node.Type) any {
+	resolvedDump = true
+	defer func() { resolvedDump = false }()
+	return astJSON(n)
+}
+
+// astJSON dumps a syntax tree as returned by parser.Parse (or, under rastJSON, as rewritten by STRewrite).
 func astJSON(n node.Type) any {
 	switch v := n.(type) {
 	case node.Int:
@@ -138,7 +148,14 @@ func astJSON(n node.Type) any {
 	case node.String:
 		return M{"t": "str", "v": chars(string(v))}
 	case node.Name:
+		if resolvedDump {
+			return M{"t": "name", "n": string(v), "s": "g", "ix": -1}
+		}
 		return M{"t": "name", "n": string(v)}
+	case node.Local:
+		return M{"t": "name", "n": v.VarName, "s": "l", "ix": v.Ix}
+	case node.Closure:
+		return M{"t": "name", "n": v.VarName, "s": "c", "ix": v.Ix}
 	case node.List:
 		return M{"t": "list", "e": astList(v)}
 	case node.BinOp:
@@ -154,9 +171,14 @@ func astJSON(n node.Type) any {
 		for _, p := range v.Parameters.Elems {
 			if nm, ok := p.(node.Name); ok {
 				ps = append(ps, string(nm))
+			} else if l, ok := p.(node.Local); ok && resolvedDump && l.Ix == len(ps) {
+				ps = append(ps, l.VarName) // a resolved parameter: the local whose slot is its position
 			} else {
-				ps = append(ps, fmt.Sprintf("?%T", p))
+				ps = append(ps, fmt.Sprintf("?%T%v", p, p))
 			}
+		}
+		if resolvedDump {
+			return M{"t": "fn", "params": ps, "body": astJSON(v.Body), "nl": v.LocalCnt}
 		}
 		return M{"t": "fn", "params": ps, "body": astJSON(v.Body)}
 	case node.Call:
